@@ -3,6 +3,7 @@
 package main
 
 import (
+	"sync"
 	"bytes"
 	"crypto/hmac"
 	"crypto/md5"
@@ -185,6 +186,9 @@ func Harness_C16_serve_gates() {
 type verifFilesT struct {
 	started, finished int
 	links             []string // topic (or user) each LinkAttachments call was for
+	gcMu              sync.Mutex
+	gcGrace           []time.Duration // now - olderThan of every DeleteUnused call
+	gcLimit           []int
 }
 
 var verifFiles *verifFilesT
@@ -195,7 +199,18 @@ func (f *verifFilesT) FinishUpload(fd *types.FileDef, success bool, size int64) 
 	return fd, nil
 }
 func (f *verifFilesT) Get(fid string) (*types.FileDef, error)                 { return nil, nil }
-func (f *verifFilesT) DeleteUnused(olderThan time.Time, limit int) error     { return nil }
+func (f *verifFilesT) DeleteUnused(olderThan time.Time, limit int) error {
+	f.gcMu.Lock()
+	defer f.gcMu.Unlock()
+	f.gcGrace = append(f.gcGrace, time.Now().Sub(olderThan))
+	f.gcLimit = append(f.gcLimit, limit)
+	return nil
+}
+func (f *verifFilesT) gcCalls() int {
+	f.gcMu.Lock()
+	defer f.gcMu.Unlock()
+	return len(f.gcGrace)
+}
 func (f *verifFilesT) LinkAttachments(topic string, msgId types.Uid, attachments []string) error {
 	f.links = append(f.links, topic)
 	return nil
@@ -355,5 +370,57 @@ func Harness_C16_setdesc_links_avatar() {
 	if setPublic && actor != t.owner {
 		verifAssert(!ok && t.public == "public-v1", "only-the-owner-changes-the-public-description")
 	}
+	verifReach("end")
+}
+
+// ---- garbage collection loop: on a tick the real largeFileRunGarbageCollection asks the store to delete unused
+// uploads older than the grace period, at most blockSize of them. The grace period is a property of uploads, not
+// of the collector's schedule: two collectors configured with different tick periods (each jittered by an
+// arbitrary random amount) apply the same grace period - an upload that is safe under one schedule is not
+// collected early under another.
+//
+//verif:override math/rand.Intn
+func verifRandIntn(n int) int {
+	r := verifNondetInt("rand")
+	verifAssume(r >= 0 && r < n)
+	return r
+}
+
+func verifRunGcOnce(period time.Duration, blockSize int) (grace time.Duration, limit int, calls int) {
+	verifFiles = &verifFilesT{}
+	store.Files = verifFiles
+	stop := largeFileRunGarbageCollection(period, blockSize)
+	if verifIsSymbolicEngine() {
+		// the collector's goroutine runs until it parks waiting for the next tick
+		verifRunUntilBlocked(func() { verifRunSpawned() })
+	} else {
+		for i := 0; i < 400 && verifFiles.gcCalls() == 0; i++ {
+			time.Sleep(time.Millisecond)
+		}
+		stop <- true
+	}
+	calls = verifFiles.gcCalls()
+	if calls > 0 {
+		grace, limit = verifFiles.gcGrace[0], verifFiles.gcLimit[0]
+	}
+	return
+}
+
+func Harness_C16_gc_grace_period() {
+	verifNewStore()
+	verifInitGlobals()
+	// tick periods: around 20 ms and around 40 ms (small so that the native replay sees a tick; the jittered
+	// ranges 0.75p..1.25p of the two do not overlap)
+	p1 := time.Duration(verifNondetI64("period1"))
+	p2 := time.Duration(verifNondetI64("period2"))
+	verifAssume(p1 >= 20*time.Millisecond && p1 <= 21*time.Millisecond && p2 >= 40*time.Millisecond && p2 <= 41*time.Millisecond)
+	block := 1 + verifChoose("blockSize", 3)
+	g1, l1, c1 := verifRunGcOnce(p1, block)
+	g2, l2, c2 := verifRunGcOnce(p2, block)
+	verifAssert(c1 >= 1 && c2 >= 1, "collector-runs-on-a-tick")
+	verifAssert(l1 == block && l2 == block, "collector-removes-at-most-the-configured-block")
+	verifAssert(g1 > 0 && g2 > 0, "only-uploads-older-than-the-grace-period-are-collectable")
+	d := g1 - g2
+	verifAssert(d <= 2*time.Millisecond && d >= -2*time.Millisecond, "grace-period-does-not-depend-on-the-tick-schedule")
 	verifReach("end")
 }
